@@ -1,7 +1,7 @@
 #!/bin/bash
 # Development aid: tools/labtry.sh <seeded-id> <driver> <n> <prop...>  - in the lab ($LAB, default /tmp/lab2): apply the seeded
 # change, rebuild the lab harness, run one driver, validate its trace against the named properties with /verif's spec, undo.
-LAB=${LAB:-/tmp/lab2}
+LAB=${LAB:-/tmp/lab3}
 ID=$1; DRV=$2; N=$3; shift 3
 git -C $LAB/repo checkout -q -- . ; git -C $LAB/repo clean -fdq
 [ "$ID" = none ] || git -C $LAB/repo apply /verif/seeded/$ID/patch.diff || exit 2
